@@ -230,6 +230,44 @@ async fn h_stream(
         .unwrap())
 }
 
+/// A handler that runs to its end and then returns an ERROR: the request
+/// completes (with a 4xx response the client receives), it is not cancelled.
+#[endpoint { method = GET, path = "/failing" }]
+async fn h_failing(
+    rqctx: RequestContext<C>,
+) -> Result<Response<Body>, HttpError> {
+    let ctx = rqctx.context().clone();
+    let uid = hdr_u64(&rqctx, "x-vmon-uid").unwrap_or(0);
+    if let Some(r) = foreign(&rqctx, uid) {
+        return Ok(r);
+    }
+    ctx.log.push("H_ENTER", uid, ctx.instance as i64, "failing");
+    let mut g = Guard { log: ctx.log.clone(), uid, done: false };
+    ctx.gates.wait(uid).await;
+    ctx.log.push("H_DONE", uid, 0, "returns-error");
+    g.done = true;
+    Err(HttpError::for_bad_request(None, format!("vmon failing handler uid={uid}")))
+}
+
+#[derive(serde::Deserialize, schemars::JsonSchema)]
+struct TypedQuery {
+    #[allow(dead_code)]
+    n: u32,
+}
+
+/// only reached with a well-formed query; `?n=abc` ends in the extractor (400)
+#[endpoint { method = GET, path = "/typed" }]
+async fn h_typed(
+    rqctx: RequestContext<C>,
+    _q: dropshot::Query<TypedQuery>,
+) -> Result<Response<Body>, HttpError> {
+    let ctx = rqctx.context().clone();
+    let uid = hdr_u64(&rqctx, "x-vmon-uid").unwrap_or(0);
+    ctx.log.push("H_ENTER", uid, ctx.instance as i64, "typed");
+    ctx.log.push("H_DONE", uid, 0, "");
+    Ok(Response::builder().status(200).body(Body::from("ok")).unwrap())
+}
+
 #[endpoint { method = GET, path = "/whoami" }]
 async fn h_whoami(rqctx: RequestContext<C>) -> Result<Response<Body>, HttpError> {
     let inst = rqctx.context().instance;
@@ -248,6 +286,8 @@ pub fn api() -> ApiDescription<C> {
     api.register(h_big).unwrap();
     api.register(h_panicking).unwrap();
     api.register(h_stream).unwrap();
+    api.register(h_failing).unwrap();
+    api.register(h_typed).unwrap();
     api.register(h_whoami).unwrap();
     api
 }
@@ -332,6 +372,19 @@ pub fn read_and_verify(
             }
             Outcome::Ok200
         }
+        Err(ReadErr::Closed) => Outcome::Closed,
+        Err(ReadErr::Truncated(b)) => Outcome::Truncated(b.len()),
+        Err(ReadErr::Reset(b)) => Outcome::Reset(b.len()),
+        Err(ReadErr::Timeout(_)) => Outcome::Timeout,
+        Err(ReadErr::Malformed(w, _)) => Outcome::Malformed(w),
+        Err(ReadErr::Io(e)) => Outcome::Io(e),
+    }
+}
+
+/// read one response that is expected to be a complete 4xx error response
+pub fn read_error_response(conn: &mut Conn, max_wait: Duration) -> Outcome {
+    match conn.read_response_within(false, max_wait) {
+        Ok(r) => Outcome::Status(r.status),
         Err(ReadErr::Closed) => Outcome::Closed,
         Err(ReadErr::Truncated(b)) => Outcome::Truncated(b.len()),
         Err(ReadErr::Reset(b)) => Outcome::Reset(b.len()),
